@@ -32,6 +32,8 @@ pub fn syn_ident_ok(s: &str) -> bool {
 
 pub fn impl_sanitize(s: &str) -> Result<String, String> { catch(|| s.to_rust_ident().0) }
 pub fn impl_sanitize_struct(s: &str) -> Result<String, String> { catch(|| s.to_rust_struct().0) }
+/// the module / file name form (`mod <name>;`, `<name>.rs`)
+pub fn impl_sanitize_filename(s: &str) -> Result<String, String> { catch(|| mir_rust::sanitize_filename(s)) }
 
 fn enumerate(max_len: usize) -> Vec<String> {
     let alpha: Vec<char> = NAME_ALPHABET.chars().collect();
@@ -146,14 +148,14 @@ pub fn run(tier: &str, seed: u64, out: &str) {
     let mut verdict_reqs: BTreeSet<String> = BTreeSet::new();
     {
         let all: Vec<(&String, bool)> = small.iter().map(|s| (s, true)).chain(exhaustive.iter().map(|s| (s, false))).collect();
-        let results = model::par_map(&all, |(s, _)| (impl_sanitize(s), impl_sanitize_struct(s)));
-        for ((s, is_small), (r1, r2)) in all.iter().zip(results.into_iter()) {
+        let results = model::par_map(&all, |(s, _)| (impl_sanitize(s), impl_sanitize_struct(s), impl_sanitize_filename(s)));
+        for ((s, is_small), (r1, r2, r3)) in all.iter().zip(results.into_iter()) {
             let dom = in_name_domain(s);
             if distinct.insert(fnv(s)) {
                 // non-trivial: the sanitiser changed the name (not the identity function)
                 if r1.as_deref() != Ok(s.as_str()) { nontrivial += 1; }
             }
-            for (fname, r) in [("sanitize", &r1), ("sanitize_struct", &r2)] {
+            for (fname, r) in [("sanitize", &r1), ("sanitize_struct", &r2), ("sanitize_filename", &r3)] {
                 // oracle on the implementation
                 if dom {
                     match r {
@@ -168,7 +170,7 @@ pub fn run(tier: &str, seed: u64, out: &str) {
                     }
                     // determinism: second call must agree
                     if *is_small {
-                        let again = if fname == "sanitize" { impl_sanitize(s) } else { impl_sanitize_struct(s) };
+                        let again = if fname == "sanitize" { impl_sanitize(s) } else if fname == "sanitize_struct" { impl_sanitize_struct(s) } else { impl_sanitize_filename(s) };
                         if &again != r { rep.oracle_fail("nondeterministic", vec![], &format!("({fname} {})", quote(s)), "two calls differ"); }
                     }
                 } else { rep.bump("outside_domain"); }
